@@ -153,9 +153,11 @@ EXPECTED_SKELETON = {
                             'else', 'raise ValueError', 'endif', 'endif', 'else', 'if base.isscalar(s) and base.isvector(v, 3)',
                             'else', 'raise ValueError', 'endif', 'endif'],
     'Quaternion.norm': ['if len(self) == 1', 'return base.qnorm', 'else', 'return np.array', 'endif'],
-    'Quaternion.log': ['if len(self) > K', 'return Quaternion', 'endif',     # several values: log mapped over them (5d38d76)
+    'Quaternion.log': ['if len(self) > 1', 'return Quaternion', 'endif',     # several values: log mapped over them (5d38d76)
                        'if _ == 0', 'if self.s < 0', 'raise ValueError', 'endif', 'else', 'endif', 'return Quaternion'],
-    'Quaternion.exp': ['if _ == 0', 'else', 'endif', 'if abs(self.s) < K', 'return UnitQuaternion', 'else', 'return Quaternion', 'endif'],
+    'Quaternion.exp': ['if len(self) > 1', 'if all((isinstance(_, UnitQuaternion) for _ in _))', 'return UnitQuaternion', 'endif',
+                       'return Quaternion', 'endif',                 # several values: exp mapped over them (0242ef3)
+                       'if _ == 0', 'else', 'endif', 'if abs(self.s) < K', 'return UnitQuaternion', 'else', 'return Quaternion', 'endif'],
     'UnitQuaternion.__init__': ['if v is None', 'if super().arghandler(s, check=check)', 'else',
                                 'if isinstance(s, np.ndarray) and base.isrot(s, check=check)', 'else',
                                 'if isinstance(s, np.ndarray) and base.ishom(s, check=check)', 'else',
@@ -172,7 +174,8 @@ EXPECTED_SKELETON = {
 # multiset of callees of the small kernels (invariant under renamed locals / reordered terms)
 EXPECTED_CALLS = {
     'Quaternion.log': ['Quaternion', 'Quaternion', 'ValueError', 'base.norm', 'len', 'math.atan2', 'math.log', 'np.zeros', 'q.log', 'self.norm'],
-    'Quaternion.exp': ['Quaternion', 'UnitQuaternion', 'abs', 'base.norm', 'math.cos', 'math.exp', 'math.sin'],
+    'Quaternion.exp': ['Quaternion', 'Quaternion', 'UnitQuaternion', 'UnitQuaternion', 'abs', 'all', 'base.norm', 'isinstance', 'len',
+                       'math.cos', 'math.exp', 'math.sin', 'q.exp'],
     'norm': ['getvector', 'isinstance', 'math.sqrt', 'sympy.sqrt'],
     'qnorm': ['base.getvector', 'np.linalg.norm'],
     'unit': ['ValueError', 'abs', 'base.getvector', 'np.linalg.norm'],
@@ -194,6 +197,11 @@ def _thr_num(e):
     return _num(e) and e.value != 0        # `x < 0` / `n == 0` are sign / zero tests, not thresholds
 
 
+def _len_test(n):
+    """`len(x) > 1`: dispatch on the number of values held, not a threshold"""
+    return any(isinstance(x, ast.Call) and ast.unparse(x.func) == 'len' for x in [n.left] + n.comparators)
+
+
 def _is_thr(e):
     if _thr_num(e):
         return True
@@ -212,7 +220,7 @@ def _skeleton(fn):
             return ast.copy_location(ast.Name(id='_' if n.id in local else n.id, ctx=n.ctx), n)
 
         def visit_Compare(self, n):
-            if len(n.ops) == 1 and isinstance(n.ops[0], (ast.Lt, ast.LtE, ast.Gt, ast.GtE)):
+            if len(n.ops) == 1 and isinstance(n.ops[0], (ast.Lt, ast.LtE, ast.Gt, ast.GtE)) and not _len_test(n):
                 if _is_thr(n.left):
                     n.left = ast.Name(id='K', ctx=ast.Load())
                 if _is_thr(n.comparators[0]):
@@ -280,7 +288,8 @@ def _threshold(fn, name):
     dflt = _defaults(fn)
     found = []
     for n in ast.walk(fn):
-        if isinstance(n, ast.Compare) and len(n.ops) == 1 and isinstance(n.ops[0], (ast.Lt, ast.LtE, ast.Gt, ast.GtE)):
+        if isinstance(n, ast.Compare) and len(n.ops) == 1 and isinstance(n.ops[0], (ast.Lt, ast.LtE, ast.Gt, ast.GtE)) \
+                and not _len_test(n):
             for e in (n.left, n.comparators[0]):
                 if _thr_num(e):
                     found.append((_coq_num(e.value), float(e.value), ast.unparse(e)))
@@ -917,11 +926,31 @@ def oracle_multi(ctx):
                       ('smul', '__mul__', lambda Z: Z * kf, lambda v: kf * v, 1e-9),
                       ('rsmul', '__rmul__', lambda Z: kf * Z, lambda v: kf * v, 1e-9),
                       ('matrix-per-value', 'matrix', lambda Z: Z.matrix, mats, 1e-9),
-                      ('exp', 'exp', lambda Z: Z.exp(), qexp_ref, 1e-6),
+                      ('exp-per-value', 'exp', lambda Z: Z.exp(), qexp_ref, 1e-6),
                       ('log-per-value', 'log', lambda Z: Z.log(), qlog_ref, 1e-6)]
                 for op, attr, f, ref, tol in un:
                     vec = lambda r: r.vec if isinstance(r, Quaternion) else r
                     run(owner(A, attr), op, attr, 'N', N, lambda: f(A), lambda k: vec(f(Ak[k])), [ref(v) for v in a], [np.array(a)], tol)
+                # class of a multi-valued exp: UnitQuaternion exactly when every single-valued exponential is one
+                if not unit:
+                    pure = [np.r_[0.0, rng.normal(size=3)] for _ in range(N)]
+                    for lab, vals in (('pure', pure), ('mixed', [pure[0]] + a[1:])):
+                        ctx.case(('multi-exp-class', lab, N, tuple(np.asarray(vals).flatten()[:8])))
+                        ctx.count('oracle:multi:exp-class:' + lab)
+                        try:
+                            with np.errstate(all='ignore'):
+                                got = type(Quaternion(vals).exp()).__name__
+                                want = 'UnitQuaternion' if all(isinstance(Quaternion(v).exp(), UnitQuaternion) for v in vals) else 'Quaternion'
+                            if got != want:
+                                ctx.fail('oracle:method:Quaternion.exp-per-value:sequence:wrong-class',
+                                         f"exp of {N} {lab} quaternions is a {got}, the single-valued rule gives {want}",
+                                         {'operands': np.asarray(vals).tolist(), 'operands_hex': [hx(v) for v in vals]})
+                        except Exception as ex:
+                            ctx.fail(f'oracle:method:Quaternion.exp-per-value:sequence-raises:{type(ex).__name__}',
+                                     f"exp of {N} {lab} quaternions raises {type(ex).__name__}: {ex}",
+                                     {'operands': np.asarray(vals).tolist(), 'operands_hex': [hx(v) for v in vals]})
+                    run('Quaternion', 'exp-per-value', 'exp', 'N', N, lambda: Quaternion(pure).exp(), lambda k: Quaternion(pure[k]).exp().vec,
+                        [qexp_ref(v) for v in pure], [np.array(pure)], 1e-6)
                 # N unit quaternions times a 3 x N array: column i is rotated by quaternion i (the sandwich product)
                 if unit:
                     pts = rng.normal(size=(3, N)) * log_uniform(rng, 1e-2, 1e2)
